@@ -4,7 +4,7 @@ From Coq Require Import String.
 From PX.Lib Require Import Base PyStr.
 From PX.Model Require Import Path Segment Raw Reader.
 From PX.Spec Require Import C01_spec.
-From PX.Proofs Require Import C01_raw C01_roundtrip.
+From PX.Proofs Require Import C01_exact C01_raw C01_roundtrip.
 
 (* For every text with a well-formed ISA header and EVERY read schedule (every
    way the stream may split its reads), the raw tokeniser yields exactly the
@@ -58,6 +58,22 @@ Theorem C01_format_parse_exact :
   parse_seg d (format_seg d s) = s.
 Proof. exact parse_format_exact. Qed.
 Print Assumptions C01_format_parse_exact.
+
+(* ... in fact EXACTLY when the segment has the shape the parser produces: every element is either the empty
+   element [[]] or ends in a non-empty component, and the last element is non-empty unless it is the only one
+   (computable predicate parser_shape, Proofs/C01_exact.v).  Interior empty elements and components are covered:
+   N4*CITY**12345 and SV1*HC::X*1 satisfy it although canon s <> s. *)
+Theorem C01_format_parse_exact_interior :
+  forall d s, distinct_delims d = true -> clean_seg d s = true ->
+  (parse_seg d (format_seg d s) = s <-> parser_shape s = true).
+Proof. exact parse_format_exact_iff. Qed.
+Print Assumptions C01_format_parse_exact_interior.
+
+Theorem C01_parsed_has_shape :
+  forall d s, distinct_delims d = true -> clean_seg d s = true ->
+  parser_shape (parse_seg d (format_seg d s)) = true.
+Proof. exact parsed_has_shape. Qed.
+Print Assumptions C01_parsed_has_shape.
 
 (* ... and a fixed point after one round. *)
 Theorem C01_format_parse_idempotent :
